@@ -18,9 +18,11 @@
 
 // ---- capture std::cout (the library prints through iostream; sod.cpp uses printf -> handled by callers)
 struct Quiet {
+  // std::ios::rdbuf(sb) resets the stream's error state; a real program never does that between two library calls, so the state is
+  // carried across: if the library leaves std::cout failed, everything it prints afterwards is lost here exactly as it would be there
   std::stringstream ss; std::streambuf *old;
-  Quiet() { old = std::cout.rdbuf(ss.rdbuf()); }
-  ~Quiet() { std::cout.rdbuf(old); }
+  Quiet() { std::ios_base::iostate st = std::cout.rdstate(); old = std::cout.rdbuf(ss.rdbuf()); std::cout.clear(st); }
+  ~Quiet() { std::ios_base::iostate st = std::cout.rdstate(); std::cout.rdbuf(old); std::cout.clear(st); }
   std::string str() const { return ss.str(); }
 };
 
